@@ -209,7 +209,7 @@ func c05random(c *Ctx, label string, nh int, distinct bool) {
 				}
 				do(Op{"op": "pop"})
 				do(Op{"op": "set", "vs": mkn(2 + rng.Intn(4))})
-				for st.q.Len() > 0 {
+				for k := 0; st.q.Len() > 0 && k < 12; k++ { // at most 5 elements remain; bounded in case Len misbehaves
 					do(Op{"op": "pop"})
 				}
 				do(Op{"op": "pop"})
@@ -309,7 +309,7 @@ func c05random(c *Ctx, label string, nh int, distinct bool) {
 				}
 			}
 			// drain: must come out in non-decreasing order (each Pop minimal)
-			for st.q.Len() > 0 {
+			for k := 0; st.q.Len() > 0 && k < 400; k++ {
 				do(Op{"op": "pop"})
 			}
 			do(Op{"op": "pop"})
